@@ -214,6 +214,15 @@ qb_hdb_handle_destroy(struct qb_hdb * hdb, qb_handle_t handle_in)
 		return (-EBADF);
 	}
 
+	/*
+	 * Only an object that has not been destroyed yet gives up its
+	 * creation reference; whatever is still counted on an object that
+	 * is pending removal belongs to those who called get.
+	 */
+	if (entry->state != QB_HDB_HANDLE_STATE_ACTIVE) {
+		return (-EBADF);
+	}
+
 	entry->state = QB_HDB_HANDLE_STATE_PENDINGREMOVAL;
 	res = qb_hdb_handle_put(hdb, handle_in);
 	return (res);
